@@ -94,13 +94,33 @@ type loop struct {
 	heldN    int
 	changed  string // first observation of a kept message that changed after its delivery
 	heldOK   int64
+	opts     []midi.Option
+	stop     func()
 }
 
 func newLoop(opts ...midi.Option) *loop {
 	l := &loop{drv: testdrv.New("c07")}
-	ins, _ := l.drv.Ins()
 	outs, _ := l.drv.Outs()
-	_, err := midi.ListenTo(ins[0], func(m midi.Message, ts int32) {
+	l.opts = opts
+	l.listen()
+	var err error
+	l.snd, err = midi.SendTo(outs[0])
+	if err != nil {
+		panic(err)
+	}
+	return l
+}
+
+// relisten ends the listener and starts the next one on the same port of the same driver (a program that
+// restarts its input handling): what the out-port sent to the previous listener is of no concern to this one.
+func (l *loop) relisten() {
+	l.stop()
+	l.listen()
+}
+
+func (l *loop) listen() {
+	ins, _ := l.drv.Ins()
+	stop, err := midi.ListenTo(ins[0], func(m midi.Message, ts int32) {
 		l.got = append(l.got, append(midi.Message(nil), m...))
 		l.ts = append(l.ts, ts)
 		for k := range m { // the receiver edits what it was handed
@@ -118,15 +138,11 @@ func newLoop(opts ...midi.Option) *loop {
 		slot := l.heldN % len(l.held)
 		l.held[slot], l.heldWant[slot] = m, append([]byte(nil), m...)
 		l.heldN++
-	}, opts...)
+	}, l.opts...)
 	if err != nil {
 		panic(err)
 	}
-	l.snd, err = midi.SendTo(outs[0])
-	if err != nil {
-		panic(err)
-	}
-	return l
+	l.stop = stop
 }
 
 func xor2A(b []byte) []byte {
@@ -156,7 +172,7 @@ func init() {
 			"out-of-range system-common arguments only need a well-formed message (statement)",
 			"loopback is observed through drivers/testdrv + midi.ListenTo with all listen options enabled",
 		},
-		Require: []string{"ctor_points", "loopback_deliveries", "accessor_calls", "out_of_range_points", "concurrent_ctor_points", "nil_pattern_calls", "conversations_with_replies_to_replies", "loopback_repeated_deliveries", "several_loopback_sessions", "appends_to_returned_messages", "kept_deliveries_rechecked", "loopback_sends_to_a_listener_without_options"},
+		Require: []string{"ctor_points", "loopback_deliveries", "accessor_calls", "out_of_range_points", "concurrent_ctor_points", "nil_pattern_calls", "conversations_with_replies_to_replies", "loopback_repeated_deliveries", "several_loopback_sessions", "appends_to_returned_messages", "kept_deliveries_rechecked", "loopback_sends_to_a_listener_without_options", "loopback_first_message_for_a_new_listener_on_the_same_port"},
 		Run:     runC07,
 	})
 }
@@ -197,6 +213,7 @@ func runC07(c *mon.Ctx) {
 	// concerns a channel voice or system common message, they all arrive just the same
 	lpPlain := newLoop()
 	plainN := 0
+	loopN := 0
 
 	checkLoop := func(name string, m midi.Message, args any) {
 		if plainN++; (m[0] >= 0xF0 || plainN%16 == 0) && m[0] != 0xFE && m[0] != 0xF8 && m[0] != 0xF0 && m[0] != 0xF7 {
@@ -228,6 +245,17 @@ func runC07(c *mon.Ctx) {
 			return
 		}
 		c.Count("loopback_repeated_deliveries", 1)
+		// now and then the program starts its listener anew (same driver, same port), and the same message is the first one for it
+		if loopN++; loopN%24 == 0 {
+			lp.relisten()
+			got = lp.roundTrip(m)
+			c.Count("loopback_sends", 1)
+			c.Count("loopback_first_message_for_a_new_listener_on_the_same_port", 1)
+			if len(got) != 1 || !bytes.Equal(got[0], m) {
+				c.Violation("loopback-new-listener:"+name, fmt.Sprintf("%s%v sent as the first message for a new listener on the same port (the previous listener had got the same message last) arrived as %v", name, args, mon.HexList(toBytes(got))), args, mon.Hex(m), mon.HexList(toBytes(got)))
+				return
+			}
+		}
 	}
 
 	// two-data-byte constructors: one case per (constructor, channel argument)
